@@ -135,6 +135,8 @@ def lock_subsets(B):
 
 
 def _job(args):
+    from checks import c02_large
+
     kind, B, chunk, nchunks, extra = args
     st = make_state(B + 1)
     viol = []
@@ -154,6 +156,8 @@ def _job(args):
                 W2[1] = W2[1] * sc  # rescale one path's weights: P must not change
             for locks in lock_subsets(B):
                 r = judge(st, W2, locks, kind, viol)
+                if idx % 3 == 0 and not c02_large.crosscheck(W2, locks):
+                    raise RuntimeError(f"factorised oracle disagrees with the full permanent oracle: {W2.tolist()} {locks}")
                 if r is None:
                     skipped += 1
                     continue
@@ -206,11 +210,24 @@ def run(ctx):
     for B, alph, mask in ha:
         for c in range(nch):
             jobs.append(("ha", B, c, nch, dict(alphabet=alph, mask=mask, scales=[2.0, 1e-3, 1e6])))
+    from checks import c02_large
+
     with mp.get_context("fork").Pool(min(16, os.cpu_count() or 1)) as pool:
+        lres = pool.map_async(c02_large._job, list(c02_large.cases(ctx.quick)), chunksize=1)
         res = pool.map(_job, jobs, chunksize=1)
+        lres = lres.get()
     n = skipped = 0
     routes = {}
     seen = set()
+    n_large = 0
+    for comp, offset, done, rts, viol in lres:
+        n_large += done
+        ctx.distinct(("large", comp, tuple(rts)))
+        for sig, msg, W, locks in viol:
+            if sig not in seen:
+                seen.add(sig)
+                ctx.violation(sig, msg, dict(kind="large", comp=list(comp), offset=offset))
+    ctx.set("large_matrices_judged", n_large)
     for kind, B, k, sk, rt, viol in res:
         n += k
         skipped += sk
@@ -248,10 +265,16 @@ def run(ctx):
                     "every lock subset (x row rescalings for HA); distinct = (family, size, code path taken) plus L1 closures")
     ctx.sample(dict(W=full_matrix([(1.0, 1.0), (1.0, 0.0)]).tolist(), locks=[0, 0, 0, 1]))
     ctx.sample(dict(W=full_matrix([(3.0, 2.0), (2.0, 0.0)]).tolist(), locks=[1, 0, 0, 1]))
-    ctx.assume("blocks larger than 12 (random_prob, a Monte-Carlo estimate) are not decided; weights outside the alphabets are not covered")
+    ctx.assume("blocks larger than 12 paths (random_prob, a Monte-Carlo estimate) are not decided; matrices with 13-16 plus ensembles are decided when they consist of tight blocks of size <= 3 "
+               "(oracle factorised by Hall's theorem, cross-validated against the full permanent oracle on the small enumerations); weights outside the alphabets are not covered")
 
 
 def replay(data):
+    if data.get("kind") == "large":
+        from checks import c02_large
+
+        r = c02_large._job((tuple(data["comp"]), data["offset"]))
+        return [(sig, msg) for sig, msg, _, _ in r[4]]
     if data.get("kind") == "l1":
         spec = l1.spec_from_json(data["spec"])
         from vf import scratch
